@@ -73,6 +73,8 @@ SELECTORS = [
     "lower(r.l) == ['abc']", "upper(r.l) == ['ABC', 'A']", "field_contains(r, ['l'], ['a'])",
     "field_equals(r, ['l', 's'], ['abc'])", "any(f.name == 'n' for f in fields('varint'))",
     "any(f.name == 'port' for f in fields('uint16'))", "fields('string')", "any(f.name == 's' for f in fields('string')) and r.idx % 2 == 0",
+    # constructors applied to values that are EQUAL across records but of different types (1, 1.0, True)
+    "string(r.n) == '1'", "string(r.n) == '1.0'", "string(r.m) == 'True'", "string(r.m) == '1'", "wstring(r.n) in ['1', '0']",
 ]
 
 FAM_A = ["test/a", [["varint", "idx"], ["varint", "n"], ["varint", "m"], ["string", "s"], ["boolean", "b"],
@@ -86,6 +88,8 @@ FAM_AV = ["test/av", [["varint", "idx"], ["varint", "n"], ["varint", "m"], ["str
                       ["datetime", "ts"], ["float", "f"], ["bytes", "data"], ["uint16", "port"]]]
 FAM_CSV = ["test/a", [["varint", "idx"], ["varint", "n"], ["varint", "m"], ["string", "s"], ["boolean", "b"],
                       ["string", "name"]]]
+# the numbers 1 / 1.0 / True (equal as Python objects, different as text) under one field name in different record types
+FAM_N = ["test/num", [["varint", "idx"], ["float", "n"], ["boolean", "m"], ["string", "s"]]]
 TYPES_BY_ADAPTER = {
     "stream": V.SERIALISABLE,
     "jsonfile": ["boolean", "datetime", "filesize", "uint16", "uint32", "float", "string", "stringlist", "varint",
@@ -117,6 +121,10 @@ def _val(r, ftype, fname, adapter):
         return V.NONE if none else ["list", [V.I(r.randint(0, 5)) for _ in range(r.randint(0, 3))]]
     if fname == "port":
         return V.NONE if none else V.I(r.choice([80, 443, 0, 65535, 8080]))
+    if ftype == "float" and fname == "n":
+        return V.NONE if none else V.F(r.choice([1.0, 1.0, 0.0, 2.0, 1.5]))
+    if ftype == "boolean" and fname == "m":
+        return V.NONE if none else ["bool", r.choice([1, 1, 0])]
     if ftype == "float":
         return V.NONE if none else V.F(r.choice([0.0, 0.25, 0.5, 0.75, 1.5, -2.0]))
     if ftype == "datetime":
@@ -138,7 +146,7 @@ def _val(r, ftype, fname, adapter):
 
 
 def _gen_records(r, adapter, n):
-    fams = {"stream": [FAM_A, FAM_B, FAM_C, FAM_A2], "jsonfile": [FAM_A, FAM_B, FAM_C, FAM_A2], "avro": [FAM_AV],
+    fams = {"stream": [FAM_A, FAM_B, FAM_C, FAM_A2, FAM_N], "jsonfile": [FAM_A, FAM_B, FAM_C, FAM_A2, FAM_N], "avro": [FAM_AV],
             "csvfile": [FAM_CSV], "sqlite": [FAM_A, FAM_B]}[adapter]
     descs = list(fams)
     if adapter in TYPES_BY_ADAPTER and r.chance(40):
